@@ -441,6 +441,10 @@ func (packet *PacketHandler) ReplaceBind(bindPacket *BindPacket) error {
 
 // GetSimpleQuery return query value as string from Query packet
 func (packet *PacketHandler) GetSimpleQuery() (string, error) {
+	// Query message is a null-terminated string: at least the terminator must be there
+	if packet.dataLength < 1 || packet.dataLength > packet.descriptionBuf.Len() {
+		return "", ErrPacketTruncated
+	}
 	return string(packet.descriptionBuf.Bytes()[:packet.dataLength-1]), nil
 }
 
